@@ -663,6 +663,17 @@ func c08FlameEval(cat []c08Entry, regs, regm []string, cand, meth string) (bad, 
 		if want == "accept" {
 			return "rejected although well-formed and colliding with nothing: " + msg, "rejected-but-wellformed/" + c08Shape(e.Ref), want
 		}
+		// a refusal is a function of what is registered and of the attempt: the same attempt again is refused
+		// again, and a text outside the grammar for every other method as well
+		again := []string{meth}
+		if !e.Gram && len(ms) > 0 {
+			again = append(again, "POST", "*", "HEAD")
+		}
+		for _, m2 := range again {
+			if reg(m2, cand) == nil {
+				return fmt.Sprintf("refused at the first attempt (%s) but accepted when attempted again for method %q", why, m2), "accepted-but-must-reject/second-attempt/" + c08Category(why), want
+			}
+		}
 		return "", "", want
 	}
 	if want == "reject" {
